@@ -13,6 +13,7 @@ import (
 	"context"
 	"errors"
 	"fmt"
+	"strings"
 	"sync"
 	"sync/atomic"
 	"testing"
@@ -29,7 +30,7 @@ import (
 
 const (
 	c02Watchdog = 30 * time.Second
-	c02Patience = 10 * time.Second
+	c02Patience = 20 * time.Second
 	c02Long     = 60 * time.Second
 )
 
@@ -353,8 +354,32 @@ func (g *c02Group) scenario(sc c02Script) bool {
 				return false
 			}
 		}
+		if atomic.LoadInt64(&c02Hangs) > 0 {
+			m.Count("gated_skipped_after_hang", 1)
+			return false
+		}
 		o, got := c02Wait(ch, c02Patience)
 		if !got {
+			select {
+			case <-run.blocked:
+				// ctx.Done() has fired (the handler recorded it), the handler is provably still
+				// parked on the harness gate (not opened yet) and the caller is still inside the
+				// chain after a generous watchdog: it is answered when the handler returns, not
+				// when the deadline passes / the caller cancels.
+				atomic.AddInt64(&c02Hangs, 1)
+				var dump strings.Builder
+				for _, gr := range vk.GoroutinesIn("serverinterceptors.") {
+					if dump.Len() < 6000 {
+						dump.WriteString(gr + "\n\n")
+					}
+				}
+				g.violate(sc.Kind+":caller-blocked-until-handler-returns", run, "the handler observed ctx.Done() (%q) and is parked on the harness gate; %v later the interceptor chain has not returned to the caller. Goroutines:\n%s", run.ctxErrStr(), c02Patience, dump.String())
+				run.release()
+				c02Wait(ch, c02Watchdog)
+				return false
+			default:
+			}
+			atomic.AddInt64(&c02Hangs, 1)
 			m.Count("late_patience_expired", 1)
 			run.release()
 			if o, got = c02Wait(ch, c02Watchdog); !got {
@@ -425,6 +450,10 @@ func (g *c02Group) scenario(sc c02Script) bool {
 }
 
 var c02Sampled sync.Map
+
+// c02Hangs: gated calls still unanswered after c02Patience; once non-zero no
+// further gated scenario is started (each would cost another c02Patience).
+var c02Hangs int64
 
 func c02SampleOnce(m *vk.M, key string, v map[string]any) {
 	if _, dup := c02Sampled.LoadOrStore(key, true); !dup {
